@@ -15,7 +15,7 @@ import io
 import numpy as np
 
 from . import seams, world, ref
-from .core import RealCodeError
+from .core import RealCodeError, Discard
 from .recording import window_ref
 
 NAME = 'E2'
@@ -499,7 +499,16 @@ class DatasetWorld(object):
         if self.model is not None:
             self.model.close()
         before = world.snapshot(self.dir) if ctx.prop == 'C04' else None
-        self.model = ctx.real('load', load_model, self.params, owners=LOAD_OWNERS)
+        try:
+            self.model = ctx.real('load', load_model, self.params, owners=LOAD_OWNERS)
+        except RealCodeError:
+            if self.store == 'torn':
+                # narrow relaxation: the statements promise that a torn store never yields a
+                # wrong window, not that the directory still loads (phylib currently does load
+                # it and falls back to the raw data)
+                ctx.skipped['load-refused-with-torn-store'] += 1
+                raise Discard('load refused with a torn store')
+            raise
         self.n_loads += 1
         ctx.op(kind)
         # durable effects of loading
